@@ -149,6 +149,11 @@ func (x *world) reopenBlock() {
 	b := block.NewBlock("", w.Round)
 	b.Hash = encryption.Hash(fmt.Sprintf("verif-storage-block|%s|%d|%s", x.tag, w.Round, encryption.Hash(x.hist)))
 	b.PrevHash = w.Prev.Hash
+	if w.Prev.Round == 0 {
+		// the genesis hash differs from World to World (engine lib); generate_challenge and blobber_block_rewards seed
+		// their choice with PrevHash, which must be the same in every run of the same history
+		b.PrevHash = encryption.Hash("verif-storage-genesis|" + x.tag)
+	}
 	b.PrevBlock = w.Prev
 	b.CreationDate = w.Now
 	b.MinerID = engine.NewClient("miner0").ID
